@@ -8,6 +8,7 @@ import (
 	"fmt"
 	"strings"
 
+	"github.com/MichaelMure/git-bug/cache"
 	"github.com/MichaelMure/git-bug/entities/bug"
 	"github.com/MichaelMure/git-bug/entities/identity"
 	"github.com/MichaelMure/git-bug/entity"
@@ -116,7 +117,7 @@ type opView struct {
 	Id, Author, Payload string
 }
 
-func viewOps(ops []bug.Operation) []opView {
+func viewOps[T dag.Operation](ops []T) []opView {
 	var out []opView
 	for _, o := range ops {
 		m := opJSONWire(o)
@@ -142,6 +143,8 @@ func runC04(c *runCtx) {
 	c04Identities(c)
 	c04Alias(c)
 	c04JsonStr(c)
+	c04CacheReplica(c)
+	c04KeyChange(c)
 	N := c.pick(160, 2500)
 	for i := 0; i < N; i++ {
 		r := c.rng.fork()
@@ -563,4 +566,200 @@ func c04JsonStr(c *runCtx) {
 	}
 	c.emit(map[string]any{"cmd": "jsonstr", "strings": strs, "literals": lits}, map[string]any{"encoded": enc, "decoded": dec})
 	c.countN("json-strings", len(strs))
+}
+
+// c04CacheReplica: read back "through the cache and a second replica after push/pull", with the second
+// replica's cache alive all along and the bug already loaded in it when the update arrives.
+func c04CacheReplica(c *runCtx) {
+	for rep := 0; rep < c.pick(3, 20); rep++ {
+		r := c.rng.fork()
+		remote, _ := newGoGit("c04cr", true)
+		repoA, _ := newGoGit("c04ca", false)
+		repoB, _ := newGoGit("c04cb", false)
+		for _, rp := range []repository.TestedRepo{repoA, repoB} {
+			if err := rp.AddRemote("origin", remote.GetLocalRemote()); err != nil {
+				panic(err)
+			}
+		}
+		rcA, rcB := mustCache(repoA), mustCache(repoB)
+		ia, err := rcA.Identities().New("A", "a@example.com")
+		if err != nil {
+			panic(err)
+		}
+		rcA.SetUserIdentity(ia)
+		ib, err := rcB.Identities().New("B", "b@example.com")
+		if err != nil {
+			panic(err)
+		}
+		rcB.SetUserIdentity(ib)
+		ba, _, err := rcA.Bugs().New("replicated "+randHexId(r, 3), pickOne(r, messagePool))
+		if err != nil {
+			panic(err)
+		}
+		edit := func(b *cache.BugCache, n int) {
+			for k := 0; k < n; k++ {
+				switch r.intn(3) {
+				case 0:
+					b.AddComment(pickOne(r, messagePool) + randHexId(r, 2))
+				case 1:
+					b.ChangeLabels([]string{"l" + randHexId(r, 2), "k" + randHexId(r, 2)}, nil)
+				default:
+					b.SetTitle("title " + randHexId(r, 3))
+				}
+			}
+			if err := b.Commit(); err != nil {
+				panic(err)
+			}
+		}
+		edit(ba, r.rangeInt(1, 3))
+		rcA.Push("origin")
+		if err := rcB.Pull("origin"); err != nil {
+			panic(err)
+		}
+		id := ba.Id()
+		if _, err := rcB.Bugs().Resolve(id); err != nil { // loaded in B's cache from now on
+			c.violation(-1, "C04/unreadable", "a pulled bug cannot be resolved through the cache: "+err.Error(), nil)
+			continue
+		}
+		edit(ba, r.rangeInt(1, 4))
+		rcA.Push("origin")
+		if err := rcB.Pull("origin"); err != nil {
+			panic(err)
+		}
+		want := viewOps(ba.Snapshot().Operations)
+		bb, err := rcB.Bugs().Resolve(id)
+		if err != nil {
+			c.violation(-1, "C04/unreadable", "after the second pull the bug cannot be resolved through the cache: "+err.Error(), nil)
+			continue
+		}
+		if d := diffViews(want, viewOps(bb.Snapshot().Operations)); d != "" {
+			c.violation(-1, "C04/roundtrip", "read through the long-lived cache of the second replica after a pull: "+d, nil)
+		}
+		// and what the second replica writes next builds on all of it
+		bb.AddComment("from B")
+		if err := bb.Commit(); err != nil {
+			c.violation(-1, "C04/roundtrip", "the second replica cannot commit on the pulled bug: "+err.Error(), nil)
+		}
+		if stored, err := bug.Read(repoB, id); err != nil {
+			c.violation(-1, "C04/unreadable", "second replica, after its own edit: "+err.Error(), nil)
+		} else if got := viewOps(stored.Operations()); len(got) != len(want)+1 || diffViews(want, got[:len(want)]) != "" {
+			c.violation(-1, "C04/roundtrip", fmt.Sprintf("after the second replica edited the pulled bug through its cache, git holds %d operations where %d + 1 are expected, or other ones", len(got), len(want)), nil)
+		}
+		c.count("cache-replica-roundtrips")
+		rcA.Close()
+		rcB.Close()
+		remote.Close()
+		cleanupScratch()
+	}
+}
+
+// c04KeyChange: an author whose set of signing keys changes during the life of a bug: what was committed
+// before the change, unsigned or signed with the earlier key, still reads back, here and on a second replica.
+func c04KeyChange(c *runCtx) {
+	for rep := 0; rep < c.pick(2, 10); rep++ {
+		r := c.rng.fork()
+		remote, _ := newGoGit("c04kr", true)
+		repo, _ := newGoGit("c04ka", false)
+		other, _ := newGoGit("c04kb", false)
+		for _, rp := range []repository.TestedRepo{repo, other} {
+			if err := rp.AddRemote("origin", remote.GetLocalRemote()); err != nil {
+				panic(err)
+			}
+		}
+		iden, err := identity.NewIdentity(repo, "keyed later", "k@example.com")
+		if err != nil {
+			panic(err)
+		}
+		if err := iden.Commit(repo); err != nil {
+			panic(err)
+		}
+		// A new identity version records the clocks as they stand, which is the time of the last commit made,
+		// and a key counts from its version's time on: the author's own last commit before a key change falls
+		// on the boundary (known finding C04/key-change-boundary).  With some other commit in between (every
+		// other run) the boundary is not touched and nothing may fail.
+		boundary := rep%2 == 1
+		spacerId, err := identity.NewIdentity(repo, "somebody else", "s@example.com")
+		if err != nil {
+			panic(err)
+		}
+		if err := spacerId.Commit(repo); err != nil {
+			panic(err)
+		}
+		spacer := func() {
+			if boundary {
+				return
+			}
+			sb, _, err := bug.Create(spacerId, 1_600_000_000, "another bug "+randHexId(r, 3), "m", nil, nil)
+			if err != nil {
+				panic(err)
+			}
+			if err := sb.Commit(repo); err != nil {
+				panic(err)
+			}
+		}
+		keyOf := func(k string) string {
+			if boundary {
+				return "C04/key-change-boundary"
+			}
+			return k
+		}
+		b, _, err := bug.Create(iden, 1_600_000_000, "signed from the second commit on", "m", nil, nil)
+		if err != nil {
+			panic(err)
+		}
+		if err := b.Commit(repo); err != nil {
+			panic(err)
+		}
+		nBefore := r.rangeInt(0, 2)
+		for k := 0; k < nBefore; k++ {
+			bug.AddComment(b, iden, int64(1_600_000_100+k), "before the key "+randHexId(r, 2), nil, nil)
+			if err := b.Commit(repo); err != nil {
+				panic(err)
+			}
+		}
+		keys := []*identity.Key{identity.GenerateKey()}
+		for round := 0; round < 2; round++ {
+			spacer()
+			if err := iden.Mutate(repo, func(m *identity.Mutator) { m.Keys = keys }); err != nil {
+				panic(err)
+			}
+			if err := iden.Commit(repo); err != nil {
+				panic(err)
+			}
+			bug.AddComment(b, iden, int64(1_600_000_200+round), "with key set "+fmt.Sprint(round), nil, nil)
+			if err := b.Commit(repo); err != nil {
+				c.violation(-1, "C04/roundtrip", "an author who has just changed keys cannot commit: "+err.Error(), nil)
+			}
+			keys = []*identity.Key{identity.GenerateKey()} // replaced in the next round
+		}
+		want := viewOps(b.Operations())
+		for _, where := range []string{"same repository", "second replica"} {
+			rr := repository.ClockedRepo(repo)
+			if where == "second replica" {
+				identity.Push(repo, "origin")
+				bug.Push(repo, "origin")
+				if err := identity.Pull(other, "origin"); err != nil {
+					panic(err)
+				}
+				if err := bug.Pull(other, resolversFor(other), "origin", iden); err != nil {
+					c.violation(-1, keyOf("C04/pull-failed"), "a bug whose author changed keys during its life cannot be pulled: "+err.Error(), nil)
+					continue
+				}
+				rr = other
+			}
+			got, err := bug.Read(rr, b.Id())
+			if err != nil {
+				c.violation(-1, keyOf("C04/unreadable"), fmt.Sprintf("a bug whose author added and then replaced a signing key during its life (%d commits before the first key; the author's last commit right before each change: %v) cannot be read back (%s): %v", nBefore+1, boundary, where, err), nil)
+				continue
+			}
+			if d := diffViews(want, viewOps(got.Operations())); d != "" {
+				c.violation(-1, "C04/roundtrip", "read back ("+where+") after key changes: "+d, nil)
+			}
+		}
+		c.count(fmt.Sprintf("key-change-roundtrips/boundary=%v", boundary))
+		repo.Close()
+		other.Close()
+		remote.Close()
+		cleanupScratch()
+	}
 }
